@@ -939,9 +939,34 @@ func assignEniWithOptions(ctx context.Context, node *networkv1beta1.Node, toAdd 
 		toAddIPv6 = toAdd
 	}
 
+	// the idle ip the node already holds, on whatever eni, serves the demand (in dual stack a pod needs both
+	// families on one eni). If it covers the demand nothing is added: growing the first eni with room
+	// regardless of the idle ip on later enis makes adjustPool, which counts every idle ip, release the
+	// new ip again, in every reconcile.
+	valid := make([]bool, len(options))
+	usable := 0
+	for i, option := range options {
+		valid[i] = filterFunc(option)
+		if option.eniRef == nil || (!valid[i] && !option.noGrow) {
+			continue
+		}
+		idleIPv4, idleIPv6 := len(getAllocatable(option.eniRef.IPv4)), len(getAllocatable(option.eniRef.IPv6))
+		switch {
+		case eniSpec.EnableIPv4 && eniSpec.EnableIPv6:
+			usable += min(idleIPv4, idleIPv6)
+		case eniSpec.EnableIPv4:
+			usable += idleIPv4
+		default:
+			usable += idleIPv6
+		}
+	}
+	if usable >= toAdd {
+		toAddIPv4, toAddIPv6 = 0, 0
+	}
+
 	// already ordered the eni
-	for _, option := range options {
-		if !filterFunc(option) {
+	for i, option := range options {
+		if !valid[i] {
 			if option.noGrow && option.eniRef != nil {
 				// the eni can not grow, but the idle ip it holds is still usable. Not counting it makes the
 				// pool add ip elsewhere which adjustPool (it counts every idle ip) releases again, forever.
@@ -1217,7 +1242,7 @@ func (n *ReconcileNode) adjustPool(ctx context.Context, node *networkv1beta1.Nod
 
 		for i := len(sorted) - 1; i >= 0; i-- {
 			// we unAssigned the ip
-			count := releaseUnUsedIP(l, sorted[i], toDel)
+			count := releaseUnUsedIPDualStack(l, sorted[i], toDel, node.Spec.ENISpec.EnableIPv4 && node.Spec.ENISpec.EnableIPv6)
 			toDel -= count
 			if toDel <= 0 {
 				break
